@@ -94,6 +94,7 @@ class ScriptedSocket:
         self.seg = seg or Seg()
         self.closed = False
         self.timeout = None
+        self.send_fault = None
         server.on_connect()
 
     # -- socket API used by the client
@@ -105,6 +106,17 @@ class ScriptedSocket:
         if self.closed:
             raise OSError("socket closed")
         data = bytes(data)
+        if self.send_fault is not None:
+            # transport fault: k octets leave, then the write times out (one shot)
+            k, exc = self.send_fault
+            self.send_fault = None
+            part = data[:max(0, min(k, len(data) - 1))]
+            self.wire.log("send", part)
+            self.server.feed(part, self.wire.chan)
+            self.wire.log("send-fault", exc.encode())
+            if exc == "SSLError":
+                raise ssl.SSLError("The write operation timed out")
+            raise socket.timeout("timed out")
         self.wire.log("send", data)
         self.server.feed(data, self.wire.chan)
 
@@ -134,11 +146,15 @@ class ScriptedSocket:
         return bytes(self.server.out)
 
 
-class TLSSocket:
-    """What FakeTLSContext.wrap_socket returns: same transport, TLS channel flag."""
+class TLSSocket(ssl.SSLSocket):
+    """What FakeTLSContext.wrap_socket returns: same transport, TLS channel flag.  It IS an
+    ssl.SSLSocket for isinstance(), and behaves like one: data arrives in records (one per
+    segment of the delivery plan); recv(n) hands out at most n octets of the current record
+    and pending() tells how many decrypted octets of it are left."""
 
     def __init__(self, inner: ScriptedSocket):
         self.inner = inner
+        self._rec = bytearray()
         inner.wire.chan = "tls"
         inner.wire.log("tls-established")
         inner.server.on_tls()
@@ -152,10 +168,23 @@ class TLSSocket:
     send = sendall
 
     def recv(self, n):
-        return self.inner.recv(n)
+        if not self._rec:
+            rec = self.inner.recv(16384)
+            if not rec:
+                return b""
+            self._rec += rec
+        out = bytes(self._rec[:n])
+        del self._rec[:n]
+        return out
+
+    def pending(self):
+        return len(self._rec)
 
     def close(self):
         self.inner.close()
+
+    def __del__(self):
+        pass
 
 
 class FakeTLSContext:
